@@ -424,6 +424,22 @@ Theorem C05_C04_coercion_bridge_closed : forall E dt (S : Ast.schema),
   end = validate_coercion E dt l t a.
 Proof. exact bridge_closed. Qed.
 
+(** ** DateTime and LongInt through C04's refined scalars ([Ast.SRefined], [tr_scalar_r]):
+    LongInt is SRefined (Some [KInt]) (PIntRange (-(2^53-1)) (2^53-1)), DateTime is
+    SRefined (Some [KString]) (PStringIn (the case's RFC 3339 table)).  The refined images agree
+    with C05's literal coercers on every literal - the leaf step [bridgeable] stood for.  The
+    check runs the refined translation ([tr_env_r], [tr_request_schema_r]) for every case, at the
+    literal and at the document level.  Not yet done: carrying the bridge theorems above over from
+    [tr_env] (kept, because C14 builds on it) to [tr_env_r]; with these two leaves it is the same
+    proof. *)
+Theorem C05_C04_longint_leaf : forall dt l, (forall v, l <> LVar v) -> l <> LNull ->
+  ValidatorModel.scalar_accepts (tr_scalar_r dt KLongInt) (tr_lit l) = match scalar_literal dt KLongInt l with Some _ => true | None => false end.
+Proof. exact longint_leaf. Qed.
+
+Theorem C05_C04_datetime_leaf : forall dt l, (forall v, l <> LVar v) -> l <> LNull ->
+  ValidatorModel.scalar_accepts (tr_scalar_r dt KDateTime) (tr_lit l) = match scalar_literal dt KDateTime l with Some _ => true | None => false end.
+Proof. exact datetime_leaf. Qed.
+
 (** the repaired defects: the same statements are false of the code as found *)
 Theorem C05_args_conform_refuted_before_fix :
   exists argdefs defs args raw m,
@@ -483,6 +499,8 @@ Print Assumptions C05_static_ok_split.
 Print Assumptions C05_C04_types_compatible.
 Print Assumptions C05_C04_variable_usage.
 Print Assumptions C05_C04_accepts_implies_static_ok.
+Print Assumptions C05_C04_longint_leaf.
+Print Assumptions C05_C04_datetime_leaf.
 Print Assumptions C05_C04_accepts_implies_static_ok_bridgeable.
 Print Assumptions C05_C04_usage_bridge.
 Print Assumptions C05_C04_coercion_bridge_closed.
